@@ -15,7 +15,7 @@ TRUSTED = [
 ]
 
 AIB = z3.ArraySort(I, B)
-schema("ReadLengthStatistics")
+schema("RLStatsAbstract")
 
 
 def mk_countdict(name, inv):
@@ -60,7 +60,7 @@ def install(world):
         k = idx if is_z3(idx) else z3.IntVal(idx)
         return ObjV("CountDict", {**d.fields, "has": z3.Store(d.fields["has"], k, z3.BoolVal(True)), "val": z3.Store(d.fields["val"], k, v)})
     world.handlers[("CountDict", "__setitem__")] = setitem
-    world.handlers[("ReadLengthStatistics", "__iadd__")] = lambda ex, st, o, a, k, n, s: Mut(o, o)
+    world.handlers[("RLStatsAbstract", "__iadd__")] = lambda ex, st, o, a, k, n, s: Mut(o, o)
 
 
 def stats_spec(cx):
@@ -83,7 +83,7 @@ def stats_spec(cx):
 
 
 StatsT = ObjT("Statistics", n=Int, paired=OptT(Bool), reverse_complemented=OptT(Int), filtered=CountDictT(),
-              read_length_statistics=ObjT("ReadLengthStatistics"))
+              read_length_statistics=ObjT("RLStatsAbstract"))
 
 
 @contract("report.py", "Statistics.__iadd__", props=["C06", "C04"], name="Statistics.__iadd__:counts")
